@@ -11,6 +11,36 @@ TypeT = U("Type")
 MISSING = Tup(List(Comp), List(List(Comp)))
 
 
+PROCESS_FRAME = [
+    # process() may record exceptions (through add_exception) only against its own component or that
+    # component's registry points, only by appending, and gives each a traceback
+    "forall(c, Comp, implies(c in old(broker.exceptions), c in broker.exceptions))",
+    "forall(c, Comp, implies(c != self.component and c not in regpoints(self.component), "
+    "       (c in broker.exceptions) == (c in old(broker.exceptions)) and "
+    "       implies(c in broker.exceptions, seq_eq(broker.exceptions[c], old(broker.exceptions)[c]))))",
+    "forall(b, Ref_Broker, implies(b != broker, b.exceptions == old(b.exceptions) and b.tracebacks == old(b.tracebacks)))",
+]
+
+# --- loop invariants of run_components (ordinal 0: the main loop) ------------------------------
+RC_INV = [
+    # C01: attempt log is a strictly increasing sub-sequence of the processed prefix
+    "len(att) == len(attpos)",
+    "forall(j, range(0, len(att)), 0 <= attpos[j] and attpos[j] < i_0 and att[j] == it_0[attpos[j]])",
+    "forall(a, range(0, len(att)), forall(b, range(0, len(att)), implies(a < b, attpos[a] < attpos[b])))",
+    # C01: seeds are neither attempted nor overwritten; everything new in the broker was attempted
+    "forall(c, old(broker.instances), c in broker.instances and broker.instances[c] == old(broker.instances)[c])",
+    "forall(j, range(0, len(att)), att[j] not in old(broker.instances))",
+    "forall(c, attidx, 0 <= attidx[c] and attidx[c] < len(att) and att[attidx[c]] == c)",
+    "forall(c, broker.instances, c in old(broker.instances) or c in attidx)",
+    # other brokers are not touched
+    "forall(b, Ref_Broker, implies(b != broker, b.instances == old(b.instances)))",
+]
+RC_INV_INNER = ["True"]
+RC_POST = [
+    "forall(c, old(broker.instances), c in broker.instances and broker.instances[c] == old(broker.instances)[c])",
+]
+
+
 def declare(reg):
     reg.sort(Comp=Comp, Val=Val, Obs=Obs)
     reg.exc_files.append("insights/core/exceptions.py")
@@ -32,8 +62,9 @@ def declare(reg):
     reg.glob(M, DELEGATES=Map(Comp, Ref("Delegate")), ENABLED=Map(Comp, BOOL), IGNORE=Map(Comp, Set(Comp)),
              BLACKLISTED_SPECS=List(STR), DEPENDENTS=Map(Comp, Set(Comp)))
 
-    for n in ("log.info", "log.debug", "log.exception", "log.warning", "log.error", "log.isEnabledFor"):
+    for n in ("log.info", "log.debug", "log.exception", "log.warning", "log.error"):
         reg.external(n, drop=True)
+    reg.external("log.isEnabledFor", params=dict(level=None), returns=BOOL)
     reg.external("time.time", returns=REAL)
     reg.external("traceback.format_exc", returns=STR)
     reg.external("get_name", params=dict(component=Comp), returns=STR, pure=True)
@@ -96,3 +127,33 @@ def declare(reg):
                      "implies(result is not None, seq_eq(some(result)[1], [g for g in self.at_least_one "
                      "                                      if not any(m in broker.instances for m in g)]))",
                  ])
+
+    # ------------------------------------------------------------------ registry helpers (assumed, read-only)
+    reg.specfun("regpoints", dict(c=Comp), Set(Comp), None)
+    reg.external("get_registry_points", params=dict(component=Comp, datasource=Opt(BOOL)), defaults=dict(datasource="None"),
+                 returns=Set(Comp), pure=True, ensures=["result == regpoints(component)"],
+                 note="used only as 'the registry points of a component' (an arbitrary fixed set per component)")
+    reg.contract(M, "is_enabled", params=dict(component=Comp), returns=BOOL, pure=True,
+                 ensures=["result == (ENABLED[component] if component in ENABLED else True)"])
+
+    # interface contract of process(): what run_components may rely on (each override is verified against it)
+    reg.interface("Delegate", "process", params=dict(self=Ref("Delegate"), broker=Ref("Broker")), returns=Opt(Val),
+                  modifies=["Broker.exceptions", "Broker.tracebacks"],
+                  raises={"Exception": None},
+                  ensures=PROCESS_FRAME, ensures_raise={"Exception": PROCESS_FRAME})
+    reg.interface("Broker", "fire_observers", params=dict(self=Ref("Broker"), component=Comp),
+                  note="observers are assumed not to write Broker fields; that no observer exception escapes is verified in Broker.fire_observers")
+
+    reg.contract(M, "run_components",
+                 params=dict(ordered_components=List(Comp), components=Map(Comp, Set(Comp)), broker=Ref("Broker")),
+                 returns=Ref("Broker"),
+                 requires=["distinct(ordered_components)",
+                           "forall(c, DELEGATES, DELEGATES[c].component == c)"],
+                 modifies=["Broker.instances", "Broker.exceptions", "Broker.tracebacks", "Broker.missing_requirements",
+                           "Broker.exec_times", "BLACKLISTED_SPECS"],
+                 ghosts=dict(att=(List(Comp), "[]"), attpos=(List(INT), "[]"), attidx=(Map(Comp, INT), "{}")),
+                 locals=dict(att=List(Comp), attpos=List(INT), attidx=Map(Comp, INT)),
+                 ghost_on=[("result = DELEGATES[component].process(broker)", "attidx[component] = len(att); att.append(component); attpos.append(i_0)", "before")],
+                 loops={0: RC_INV, 1: ["True"], 2: RC_INV_INNER},
+                 raises={},
+                 ensures=["result == broker"] + RC_POST)
